@@ -86,13 +86,21 @@ func (it *item) enc() []byte {
 	return encList(parts...)
 }
 
-// size counts the nodes of the tree.
+// size counts the nodes of the tree (shared nodes as often as they occur), giving up beyond 400 000.
 func (it *item) size() int {
-	n := 1
-	for _, k := range it.kids {
-		n += k.size()
+	budget := 400000
+	var rec func(n *item)
+	rec = func(n *item) {
+		budget--
+		for _, k := range n.kids {
+			if budget <= 0 {
+				return
+			}
+			rec(k)
+		}
 	}
-	return n
+	rec(it)
+	return 400000 - budget
 }
 
 func (it *item) clone() *item {
@@ -220,7 +228,15 @@ func mutatePayload(t *rapid.T, valid []byte) ([]byte, string) {
 		}
 		var notes []string
 		for i, n := 0, rapid.IntRange(1, 3).Draw(t, "nTreeMuts"); i < n; i++ {
-			notes = append(notes, mutateTree(t, root))
+			backup := root.clone()
+			note := mutateTree(t, root)
+			// duplicated nodes are shared: a later duplication inside one of them multiplies through all its copies. Keep the
+			// logical size of the harness's tree bounded (10^8 nodes took tens of GB), or take the mutation back
+			if root.size() > 300000 {
+				root = backup
+				note += "(taken back: tree too large)"
+			}
+			notes = append(notes, note)
 		}
 		out := root.enc()
 		if len(out) > 24<<20 { // more than one frame can carry
